@@ -18,6 +18,18 @@ COMMON_ASSUME = [
 ]
 
 PROPS = {
+    'C18': dict(
+        legs=[dict(name='native', bin='trans', shards=16, timeout=dict(quick=300, thorough=3000))],
+        rule='evaluations = protocol-conforming operation sequences executed against the real TransientSource '
+             '(every sequence of length 1..n over {child returns Continue/Reregister/Disable/Remove, remove(), replace(), '
+             'map(), parent register/reregister/unregister}, from From<T> and from Default; mock child by direct calls, '
+             'real eventfd-Generic and Timer children through a real loop); non-trivial = the sequence changed the child '
+             '(disable/remove/replace/reregister) or forwarded at least one event; distinct = distinct operation sequences',
+        exhaustive_scope='all protocol-conforming sequences up to the lengths given in notes, at most 3 children per sequence',
+        assumptions=COMMON_ASSUME + ['protocol = parent register/unregister alternate, reregister only while registered, '
+                                     'after a change made while registered the next registration call is reregister',
+                                     'replace() on an empty wrapper and the effect of a parent register on a disabled child are not judged'],
+    ),
     'C20': dict(
         legs=[dict(name='native', bin='tok', shards=16, timeout=dict(quick=300, thorough=3000))],
         rule='evaluations = (slot id, generation, sub id) triples pushed through calloop\'s own key conversion '
